@@ -3,6 +3,7 @@ package props
 import (
 	"fmt"
 	"math/rand"
+	"reflect"
 	"strings"
 
 	"gitee.com/xuesongtao/protoc-go-valid/valid"
@@ -199,6 +200,22 @@ func runC14(c *core.Ctx) {
 			if got != texts[j] {
 				res.Violate("C14|builder|"+keyClass(t.Key), fmt.Sprintf("GenValidKV(%q,%q,%q)=%q, documented rendering %q", t.Key, t.Val, t.Msg, got, texts[j]), t)
 				ok = false
+			}
+			// the arguments handed over from a slice the caller keeps (args...): the helper reads them, twice the same
+			// call gives twice the same text, and the slice is what it was
+			if j%3 == 0 && (t.HasMsg || t.Val != "") {
+				args := []string{t.Val}
+				if t.HasMsg {
+					args = append(args, t.Msg)
+				}
+				keep := append([]string{}, args...)
+				g1 := valid.GenValidKV(t.Key, args...)
+				g2 := valid.GenValidKV(t.Key, args...)
+				res.Count("builder_calls_with_a_kept_argument_slice")
+				if g1 != got || g2 != got || !reflect.DeepEqual(args, keep) {
+					res.Violate("C14|builder-kept-slice|"+keyClass(t.Key), fmt.Sprintf("GenValidKV(%q, args...) with args=%q: first call %q, second call %q (separate arguments give %q); args afterwards %q", t.Key, keep, g1, g2, got, args), t)
+					ok = false
+				}
 			}
 		}
 		if !ok {
